@@ -476,6 +476,7 @@ class Engine(StmtMixin, EvalMixin, Interp):
         X["itertools.zip_longest"] = self.ext_zip_longest
         X["itertools.groupby"] = self.ext_groupby
         X["itertools.product"] = self.ext_product
+        X["heapq.merge"] = self.ext_heapq_merge
         # the operator module: function forms of the binary / in-place operators (same semantics as the syntax)
         _bin = {"add": ast.Add, "sub": ast.Sub, "mul": ast.Mult, "floordiv": ast.FloorDiv, "mod": ast.Mod,
                 "or_": ast.BitOr, "and_": ast.BitAnd, "xor": ast.BitXor}
@@ -533,7 +534,7 @@ class Engine(StmtMixin, EvalMixin, Interp):
                 return isinstance(v, SliceVal)
         if isinstance(t, ExternalRef):
             if isinstance(v, Opaque):
-                return v.attrs.get("$class") == (t.attr or t.dotted)
+                return v.attrs.get("$class") == (t.attr or t.dotted) or v.tag == (t.attr or t.dotted)
             return False
         raise Unsupported(f"isinstance against {t}")
 
@@ -885,6 +886,35 @@ class Engine(StmtMixin, EvalMixin, Interp):
         out = []
         for a in args:
             out.extend(self.iterate_concrete(a))
+        return SymIter(out, 0)
+
+    def ext_heapq_merge(self, interp, args, kw):
+        """heapq.merge(*iterables, key=None, reverse=False): repeatedly yields the smallest HEAD among the inputs (ties:
+        the earlier input first) - a sorted result only if every input is sorted.  Comparisons of symbolic keys fork."""
+        self.trusted_used.add("heapq.merge")
+        if kw.get("reverse"):
+            raise Unsupported("heapq.merge(reverse=True)")
+        keyf = kw.get("key")
+        pools = [list(self.iterate_concrete(a)) for a in args]
+        keyed = [[(self.call(keyf, [x], {}) if keyf is not None else x, x) for x in p] for p in pools]
+        heads = [0] * len(keyed)
+        out = []
+        while True:
+            best = None
+            for j, p in enumerate(keyed):
+                if heads[j] >= len(p):
+                    continue
+                if best is None:
+                    best = j
+                    continue
+                kj, kb = p[heads[j]][0], keyed[best][heads[best]][0]
+                lt = (kj < kb) if (is_int(kj) and is_int(kb) and isinstance(kj, int) and isinstance(kb, int)) else self.sym_lt("<", kj, kb)
+                if self.branch(lt):
+                    best = j
+            if best is None:
+                break
+            out.append(keyed[best][heads[best]][1])
+            heads[best] += 1
         return SymIter(out, 0)
 
     def ext_product(self, interp, args, kw):
